@@ -69,6 +69,20 @@ def readByte : List Int → Except Err (Int × List Int)
   | [] => .error .EOFError
   | b :: rest => .ok (b, rest)
 
+/-- `struct.pack('>h', v)` as two bytes -/
+def packI16 (v : Int) : Except Err (List Int) :=
+  if -32768 ≤ v ∧ v ≤ 32767 then
+    let u := if v < 0 then v + 65536 else v
+    .ok [u / 256, u % 256]
+  else .error .StructError
+
+/-- `struct.pack('>hhh', a, b, c)` -/
+def packI16x3 (a b c : Int) : Except Err (List Int) := do
+  let x ← packI16 a
+  let y ← packI16 b
+  let z ← packI16 c
+  pure (x ++ y ++ z)
+
 /-- a message in a track as far as `tracks.py` looks at it: an opaque identity (everything `copy(time=…)` keeps),
     whether its type is `end_of_track`, and its time -/
 structure TMsg where
